@@ -103,7 +103,9 @@ structure El (l : Option Lbl) (s s' : Streams) : Prop where
 structure Perm where
   /-- frames that may be queued, per entry (RST_STREAM may also be queued wherever `cut` is permitted) -/
   push : Nat → SFrame → Prop := fun _ _ => False
-  /-- the write path: `pop`, `unpop`, `mark` -/
+  /-- `pop_frame` taking a frame off the head of a queue -/
+  pop : Prop := False
+  /-- the rest of the write path: `unpop` (`reclaim_frame`), `mark` -/
   write : Prop := False
   cut : Nat → Prop := fun _ => False
   rpush : Nat → REvent → Prop := fun _ _ => False
@@ -114,7 +116,7 @@ structure Perm where
 
 def Perm.ok (P : Perm) : Lbl → Prop
   | .push k f => P.push k f ∨ (isMsg f = false ∧ P.cut k)
-  | .pop _ _ => P.write
+  | .pop _ _ => P.pop
   | .unpop _ _ => P.write
   | .mark _ => P.write
   | .cut k _ => P.cut k
